@@ -394,6 +394,13 @@ func TestVerifC05(t *testing.T) {
 		size := 5 + r.Intn(30)
 		c05Bubble(t, func() { c05WRandom(out, r, size) })
 	}
+	nr := 3000
+	if thorough {
+		nr = 100000
+	}
+	for i := 0; i < nr; i++ {
+		c05Ranker(out, r)
+	}
 }
 
 func TestVerifC05Nothing(t *testing.T) {}
